@@ -14,6 +14,8 @@ use crate::model::{
     no_fmt,
 };
 
+pub mod extra;
+
 pub type Verifier = FriVerifier<F17, Ch<GV>, H, Coin, GV>;
 
 /// evaluation of a remainder given in the reversed order the prover commits to (Horner from the first element)
